@@ -22,6 +22,10 @@ def configs(tier, seed):
         for args in ([1, 1, 2], [2, 1, 2], [1, 2, 3], [2, 2, 4]):
             out.append(dict(args=args, S=2, mults=[1, 2], depth=3))
             out.append(dict(args=args, S=2, mults=[2], depth=4, ngrams=[]))
+        # boundary multiplicities: 0 (a no-op that must stay one), 2^32-1 and beyond
+        for args in ([1, 1, 2], [2, 2, 3]):
+            out.append(dict(args=args, S=2, mults=[0, 1, 2**32 - 1, 2**32 + 5], depth=3,
+                            keep=[0, 2, 5], ngrams=[], saveload=False))
     else:
         for args in ([1, 1, 2], [2, 1, 2], [1, 2, 3], [2, 2, 4], [3, 2, 1], [2, 3, 16], [1, 4, 2]):
             out.append(dict(args=args, S=2, mults=[1, 2], depth=4))
